@@ -34,6 +34,9 @@ WHAT = {
  'constructor-filled optional field': ("C08", "attrs model a, t=Factory(takes_self=True), z=7: load({'a': 1, 'z': 5}) -> M(a=1, t=5, z=7); with t present -> TypeError (takes_self_factory, all presence patterns)"),
  'Literal loader leaked TypeError': ("C04", "Literal with more than 4 cases (set branch): unhashable datum [0.0] -> TypeError escaped (literal_big_int kind=1)"),
  'shadowed an inner coercer': ("C19", "converter for A(inner: A') -> B(inner: B') where the inner classes are also named A and B: generated coerce_A_to_B shadowed the inner coercer -> AttributeError (names_same_name_nested)"),
+ 'leaked IndexError for an empty tuple': ("C04", "IPv4Network / IPv6Network / IPv4Interface / IPv6Interface loaders: () -> IndexError escaped (l1_IPv4Network_*_shapes tag=1 c0=1 kind=9)"),
+ 'trail that can not be rendered': ("C04", "debug_trail FIRST/ALL: load({10**5000: 'x'}, Dict[int, int]) -> ValueError (int -> str conversion limit) from render_trail_as_note masked the load error (huge_trail_key sel=2 v=0)"),
+ 'non-string extra keys with ExtraKwargs': ("C04", "name_mapping(extra_in=ExtraKwargs()): load({'a': 1, 5: 2}, M) -> TypeError 'keywords must be strings' escaped in every mode (nonstr_keys_kwargs k0=3 k1=0)"),
  'generic type aliases': ("C16", "type RevMap[K, V] = dict[V, K]: RevMap[int, str] loaded as dict[int, str] ({'a': 1} rejected, {1: 'a'} accepted) (alias_RevMap_int_str)"),
 }
 WHAT.update(json.load(open('/verif/tools/fixed_extra.json')) if __import__('os').path.exists('/verif/tools/fixed_extra.json') else {})
